@@ -85,7 +85,13 @@ pub fn load_known(root: &Path) -> Vec<KnownFinding> {
 
 /// cases per shard for a tier
 pub fn scaled(ctx: &Ctx, quick_total: u64, thorough_total: u64) -> u32 {
-	let total = if ctx.tier == "thorough" { thorough_total } else { quick_total };
+	let mut total = if ctx.tier == "thorough" { thorough_total } else { quick_total };
+	// smoke test of the thorough tier (all its sub-runs, small): PDBV_THOROUGH_DIV=<n>
+	if ctx.tier == "thorough" {
+		if let Some(d) = std::env::var("PDBV_THOROUGH_DIV").ok().and_then(|s| s.parse::<u64>().ok()) {
+			total = (total / d.max(1)).max(ctx.shards);
+		}
+	}
 	((total + ctx.shards - 1) / ctx.shards).max(1) as u32
 }
 
